@@ -443,7 +443,8 @@ class TCPClient(_TCPPooling, interfaces.TokenInterface):
                 port,
                 ssl=self._ssl_context_factory(message.unresolved_remote),
             )
-        except socket.gaierror as e:
+        except (socket.gaierror, UnicodeError) as e:
+            # (UnicodeError: a name the IDNA step of name resolution refuses)
             raise error.ResolutionError(
                 "No address information found for requests to %r" % host
             ) from e
